@@ -14,6 +14,7 @@ import contextlib
 import fcntl
 import hashlib
 import importlib
+import io
 import json
 import os
 import random
@@ -298,6 +299,19 @@ def main(argv):
     # 4. decide
     known = [k for k in load_known() if k['property'] == pid]
     known_sigs = {k['signature']: k for k in known if k['status'] == 'known'}
+    # every recorded finding is re-executed on every run (its replay must still fail with its signature)
+    for sig, k in known_sigs.items():
+        if sig in {v['signature'] for v in ctx.violations} or 'replay_obj' not in k:
+            continue
+        sub = Ctx(pid, tier, seed)
+        sub.driver = ctx.driver
+        try:
+            with contextlib.redirect_stdout(io.StringIO()):
+                sigs = prop.replay(sub, {'replay': k['replay_obj'], 'signature': sig})
+        except Exception:
+            sigs = []
+        if sig in sigs:
+            ctx.known_hits.add(sig)
     rc = 0
     new_viol = []
     for v in ctx.violations:
